@@ -26,6 +26,9 @@ let suite_panic (line : string) : string =
       | 4 -> res_s bs (M.p_can_pause !p now)
       | 5 -> c := M.ix_propagate !p now; res_s bs (M.c_is_expired !c now)
       | 6 -> res_s bs (M.c_is_expired !c now)
+      | 7 -> (match M.ix_panic_pause !p now with M.Ok p' -> p := p'; "OK" | M.Err e -> err_s e)
+      | 8 -> (match M.ix_panic_unpause !p now with M.Ok p' -> p := p'; "OK" | M.Err e -> err_s e)
+      | 9 -> (match M.ix_panic_unpause_permissionless !p now with M.Ok p' -> p := p'; "OK" | M.Err e -> err_s e)
       | _ -> failwith "bad op" in
     out := (r ^ " " ^ pst !p ^ " " ^ zs !c.M.c_flags ^ " " ^ zs !c.M.c_start ^ " " ^ zs !c.M.c_last_update) :: !out
   done;
